@@ -329,6 +329,31 @@ def make_rz_boundary_run(kind):
     return run
 
 
+def run_global_xind(ctx):
+    """MeshRegion.globalXInd for symbolic radial sizes: 0 on the separatrix from both sides,
+    continuous across every radial join, strictly increasing with the local index."""
+    from hypnotoad.core import mesh as M
+
+    nxs = [ctx.int("nx_seg%d" % k) for k in range(4)]
+    for n_ in nxs:
+        ctx.assume(n_ >= 1)
+    sep = 2  # two segments inside, two outside
+
+    def reg(r):
+        o = types.SimpleNamespace(radialIndex=r, equilibriumRegion=types.SimpleNamespace(nx=list(nxs), separatrix_radial_index=sep))
+        return lambda i: M.MeshRegion.globalXInd(o, i)
+
+    g = [reg(r) for r in range(4)]
+    with spec_mode():
+        ctx.oblige(And(g[sep](0) == 0, g[sep - 1](2 * nxs[sep - 1]) == 0), "global x-index 0 on the separatrix, seen from the region outside and from the region inside")
+        for r in range(3):
+            ctx.oblige(g[r](2 * nxs[r]) == g[r + 1](0), "continuous across the radial join %d|%d" % (r, r + 1))
+        i = ctx.int("i")
+        for r in range(4):
+            ctx.oblige(g[r](i + 1) == g[r](i) + 1, "region %d: increases by one per local index" % r)
+    return g
+
+
 def run_write_arrays(ctx):
     """writeArray / writeCorners / writeArrayXDirection: which entries go to the file under
     which name (the file holds nx x ny values per variable: the last x-face / y-face / corner
@@ -383,6 +408,8 @@ def build(S):
         S.contract("geometry[assembly of global arrays]", FN_GEO, run_assembly, shape="4 regions (2x2 blocks of sizes 1x2, 2x2), all values symbolic")
         S.under_contract("hypnotoad.core.mesh:BoutMesh.writeArray", "hypnotoad.core.mesh:BoutMesh.writeCorners", "hypnotoad.core.mesh:BoutMesh.writeArrayXDirection")
         S.contract("writeArray/writeCorners/writeArrayXDirection", "hypnotoad.core.mesh:BoutMesh.writeArray", run_write_arrays, shape="nx=ny=2, all values symbolic")
+        S.under_contract("hypnotoad.core.mesh:MeshRegion.globalXInd")
+        S.contract("globalXInd", "hypnotoad.core.mesh:MeshRegion.globalXInd", run_global_xind, shape="four radial segments of symbolic size, separatrix between the second and third")
         S.under_contract("hypnotoad.core.mesh:MeshRegion.getRZBoundary")
         for kind in ("other", "self", "target"):
             S.contract("getRZBoundary[upper neighbour: %s]" % kind, "hypnotoad.core.mesh:MeshRegion.getRZBoundary", make_rz_boundary_run(kind), shape="nx=ny=2, all values symbolic")
@@ -395,4 +422,7 @@ def post(S):
     topology integers announce; theta and chi as documented."""
     from bounded import gridrun
 
-    gridrun.run(S, ["shared_edges", "file_topology"], "hypnotoad.core.mesh:MeshRegion.getRZBoundary", name="shared edges and file-level adjacency on generated grids")
+    from bounded import gridbank as gb
+
+    cfgs = (gridrun.quick_set() if S.tier == "quick" else gridrun.thorough_set()) + [gb.cfg("cdn", dict(orthogonal=False, nx_core=5, nx_sol=3), fpol="profile", pressure=True, label="cdn-nonorth-nx-unequal")]
+    gridrun.run(S, ["shared_edges", "file_topology"], "hypnotoad.core.mesh:MeshRegion.getRZBoundary", cfgs=cfgs, name="shared edges and file-level adjacency on generated grids (incl. a non-orthogonal grid with nx_core != nx_sol)")
